@@ -689,7 +689,27 @@ RENDER_REQUIRED = {
 }
 
 
-@rule("DISP-7", 12, "render dispatch is type-directed; each handler's label reads the payload fields of its class; both edge tuples are drawn, dashed only for back edges")
+def _type_or_name_test(cj: ast.AST, fld: str, probe: str) -> bool:
+    """a guard conjunct that cannot drop the payload of a block of the dispatched class: a test of the
+    block's type, of the block's name, or of the payload field itself (`if block.jump_targets:`)"""
+    if isinstance(cj, ast.UnaryOp) and isinstance(cj.op, ast.Not):
+        return _type_or_name_test(cj.operand, fld, probe)
+    if isinstance(cj, ast.BoolOp):
+        return all(_type_or_name_test(v, fld, probe) for v in cj.values)
+    for n in ast.walk(cj):
+        if isinstance(n, ast.Call) and isinstance(n.func, ast.Name) and n.func.id in ("isinstance", "type", "issubclass"):
+            return True
+    attrs = [n for n in ast.walk(cj) if isinstance(n, ast.Attribute)]
+    if any(a.attr in (fld, probe) for a in attrs):
+        return True
+    roots = set()
+    for n in ast.walk(cj):
+        if isinstance(n, ast.Name):
+            roots.add(n.id)
+    return roots <= {"name", "str", "len", "True", "False", "None"} and bool(roots & {"name"})
+
+
+@rule("DISP-7", 12,"render dispatch is type-directed; each handler's label reads the payload fields of its class; both edge tuples are drawn, dashed only for back edges")
 def disp7(ctx) -> List[Ob]:
     prog = ctx.prog
     base = prog.cls("BaseRenderer")
@@ -715,8 +735,12 @@ def disp7(ctx) -> List[Ob]:
         for cname, fields in RENDER_REQUIRED.items():
             if is_sub(K.name, cname):
                 req |= fields
-        if not req:
-            continue
+        bb_ = prog.cls("BasicBlock")
+        below = set()
+        for c_ in K.mro():
+            if c_ is bb_ or not c_.is_subclass_of(bb_):
+                continue
+            below |= {f_.name for f_ in c_.own_fields} | {m_ for m_ in c_.methods if not m_.startswith("__") and not m_.startswith("replace_")}
         for r in renderers:
             for c in calls:
                 h = r.find_method(c.func.attr)
@@ -734,22 +758,70 @@ def disp7(ctx) -> List[Ob]:
                     reads |= {n.attr for n in A.walk_no_nested(nd_) if isinstance(n, ast.Attribute) and isinstance(n.value, ast.Name) and n.value.id in pn_}
                 reads |= {"tree"} if "get_tree" in reads else set()
                 missing = req - reads
+                if not req and not (reads & below):
+                    continue
                 if K.name == "RegionBlock" and "subregion" in reads:
                     # the cluster must recurse into render_block for the members
                     if not any(method_calls(nd_, rb.name) for nd_ in eff_):
                         missing = missing | {"<recursion into render_block>"}
                 if missing:
                     out.append(bad("DISP-7", h.qualname, key, where, f"handler for {K.name} never reads {sorted(missing)}: the label / cluster omits that payload"))
-                else:
+                elif req:
                     out.append(ok("DISP-7", h.qualname, key, where, f"reads {sorted(req)}"))
+                # the payload is drawn for every block of the class: the reads of a payload field sit under
+                # tests of the block's type and name only.  A value-level conjunct (`block.begin in self.bcmap`,
+                # `len(block.x) < N`, a renderer flag) makes the label drop the payload for the blocks failing it.
+                from .ctrl import _guard_conditions as _gc7
+
+                for fld in sorted((req | below) & reads):
+                    probe = "get_tree" if fld == "tree" and "get_tree" in reads else fld
+                    sites = [(nd_, n) for nd_ in eff_ for n in A.walk_no_nested(nd_) if isinstance(n, ast.Attribute) and n.attr in (fld, probe) and isinstance(n.value, ast.Name)
+                             and n.value.id in ({bp} | {a_.arg for a_ in nd_.args.args} - {"self", "digraph", "name"})]
+                    if not sites:
+                        continue
+                    worst = None
+                    for nd_, n in sites:
+                        offending = []
+                        for t_, p_ in _gc7(nd_, n, ifexp=True):
+                            try:
+                                te = ast.parse(t_, mode="eval").body
+                            except SyntaxError:
+                                continue
+                            if isinstance(te, ast.Name):
+                                # a boolean local bound once stands for its definition
+                                defs_ = [a_ for a_ in ast.walk(nd_) if isinstance(a_, ast.Assign) and len(a_.targets) == 1 and isinstance(a_.targets[0], ast.Name) and a_.targets[0].id == te.id]
+                                if len(defs_) == 1:
+                                    te = defs_[0].value
+                            for cj in (te.values if isinstance(te, ast.BoolOp) and isinstance(te.op, ast.And) and p_ else [te]):
+                                if _type_or_name_test(cj, fld, probe):
+                                    continue
+                                offending.append(A.cond_key(A.unparse(cj), p_))
+                        if not offending:
+                            worst = None
+                            break
+                        worst = (nd_, n, offending)
+                    if worst is not None:
+                        nd_, n, offending = worst
+                        out.append(bad("DISP-7", h.qualname, f"{r.name}: {fld} of {K.name} drawn under: " + " & ".join(sorted(set(offending))), ctx.where(h, n),
+                                       f"the label reads {fld} only when {sorted(set(offending))}: a {K.name} failing that test is drawn without its payload"))
     # edges
     re_ = base.find_method("render_edges")
     if re_ is None:
         raise AnalysisError("BaseRenderer.render_edges not found")
-    loops = [n for n in A.walk_no_nested(re_.node) if isinstance(n, ast.For) and isinstance(n.iter, ast.Attribute)]
+    def _edge_source(it):
+        """the attribute a loop walks: `x.jump_targets`, `enumerate(x.jump_targets)`, or a local bound once to it"""
+        while isinstance(it, ast.Call) and isinstance(it.func, ast.Name) and it.func.id in ("enumerate", "list", "tuple", "iter") and it.args:
+            it = it.args[0]
+        if isinstance(it, ast.Name):
+            defs_ = [a_ for a_ in ast.walk(re_.node) if isinstance(a_, ast.Assign) and len(a_.targets) == 1 and isinstance(a_.targets[0], ast.Name) and a_.targets[0].id == it.id]
+            if len(defs_) == 1:
+                return _edge_source(defs_[0].value)
+        return it if isinstance(it, ast.Attribute) else None
+
+    loops = [n for n in A.walk_no_nested(re_.node) if isinstance(n, ast.For) and _edge_source(n.iter) is not None]
     seen = {}
     for lp in loops:
-        attr = lp.iter.attr
+        attr = _edge_source(lp.iter).attr
         edge_calls = [c for c in method_calls(lp, "edge")]
         # a local helper that draws the edge and forwards its keyword arguments (`def draw(src, dst, **attrs):
         # .. g.edge(.., **attrs)`) counts as the edge call, with the keywords of the call site
